@@ -1,10 +1,10 @@
 """Driver configuration for C03."""
 
 CFG = dict(
-    tests=["c01:TestC03", "c08:TestC03Obs", "c08:TestC03Quorum", "c08:TestC03Limits"],
+    tests=["c01:TestC03", "c08:TestC03Obs", "c08:TestC03Quorum", "c08:TestC03Limits", "c08:TestC03HistRace"],
     case_files={"cases_outcome": "c01:TestC03", "cases_obs": "c08:TestC03Obs"},
     n_quick=40, n_thorough=150, shards_thorough=4, timeout_quick=900, timeout_thorough=3000,
-    rule="three parts: (1) outcome clauses on the C01 rounds (boundary families + VERIF_N random rounds): K03 = the real outcome passes the "
+    rule="four parts (the fourth: 3000 observations built while the block source keeps delivering alternating histories, each validated by a peer instance): (1) outcome clauses on the C01 rounds (boundary families + VERIF_N random rounds): K03 = the real outcome passes the "
          "rule-shaped validity checker and its byte length is within MaxOutcomeLength whenever the previous outcome is valid; (2) observation "
          "clauses on the C08 stores (boundary families incl. 10,000-byte perform data and 3000 staged results + VERIF_N random stores): K03obs = a "
          "SECOND plug-in instance's ValidateObservation accepts the bytes and len <= MaxObservationLength; (3) the real ObservationQuorum on the "
